@@ -82,6 +82,7 @@ class Profile:
     same_leaf_ns: bool = True
     same_typedef_name_other_ns: bool = False
     typedef_weight: int = 1
+    identity_methods: bool = False
     defaults: bool = True
     typedef_needs_target: bool = False
     template_modes: Tuple[str, ...] = ('all', 'all', 'all', 'none', 'mixed')
@@ -596,6 +597,15 @@ def classes(draw, ctx: Ctx, path: Tuple[str, ...]):
         # serialization marker (at most one per class), as in DOCS.md
         members.append(M.Method(M.Ret(M.Type((), 'void')),
                                 draw(st.sampled_from(['serialize', 'serializable'])), (), True))
+    if prof.identity_methods and not template and draw(st.integers(0, 2)) == 0:
+        # takes and returns a shared pointer of the class (merge / clone-into style)
+        self_p = M.Type((), 'This', (), False, '*')
+        nm_ = draw(st.sampled_from(['share', 'merged', 'same']))
+        if draw(st.booleans()):
+            members.append(M.Method(M.Ret(self_p), nm_, (M.Arg(self_p, 'other'),), True))
+        else:
+            members.append(M.Static(M.Ret(self_p), nm_, (M.Arg(self_p, 'other'),
+                                                         M.Arg(M.Type((), 'int'), 'n'))))
     for _ in range(n):
         k = draw(st.sampled_from(kinds))
         ctx.scoped_ok = set(class_ok)
